@@ -166,6 +166,34 @@ theorem staking_validate_program_as_modelled (s : State) (frm to : Addr) :
   · simp [h1, h2, h3, h4, h5]
   · simp [h1, h2, h3, h4, h5]
 
+/-- **the gov callbacks as regenerated check lists = the hand-written reading**: interpreting what `DepositPeriodCallback`
+and `VotePeriodCallback` refuse (regenerated, in source order; the vote callback runs the deposit callback first) over both
+proposal queues gives `govRefuses` for every state and pair — a check that is dropped, or a vote callback that no longer runs
+the deposit callback, stops this from checking while the driver follows the code -/
+theorem gov_program_as_modelled (s : State) (frm to : Addr) :
+    govRefusesP cfg (Gen.C14.govDepositChecks.map parseG) (Gen.C14.govVoteChecks.map parseG) s frm to =
+      govRefuses cfg s frm to := by
+  have hd : Gen.C14.govDepositChecks.map parseG = [.proposerFrom, .proposerTo, .depositFrom, .depositTo] := by decide
+  have hv : Gen.C14.govVoteChecks.map parseG = [.depositCallback, .voteFrom, .voteTo] := by decide
+  rw [hd, hv]
+  have e1 : ∀ id, depositCbP [.proposerFrom, .proposerTo, .depositFrom, .depositTo] s frm to id = depositCb cfg s frm to id := by
+    intro id
+    unfold depositCbP depositCb
+    rw [cfg_from_code]
+    cases get s.props id with
+    | none => rfl
+    | some pr => simp [govCheck, Bool.or_assoc]
+  have e2 : ∀ id, voteCbP [.proposerFrom, .proposerTo, .depositFrom, .depositTo] [.depositCallback, .voteFrom, .voteTo] s frm to id =
+      voteCb cfg s frm to id := by
+    intro id
+    unfold voteCbP voteCb depositCb
+    rw [cfg_from_code]
+    cases get s.props id with
+    | none => rfl
+    | some pr => simp [govCheck, Bool.or_assoc]
+  unfold govRefusesP govRefuses
+  simp only [e1, e2]
+
 theorem handlerValidate_code (s : State) (frm to : Addr) :
     handlerValidate cfg s frm to "NewBankMigrate" = none ∧
     handlerValidate cfg s frm to "NewDistrStakingMigrate" = stakingValidate cfg s frm to ∧
@@ -181,7 +209,8 @@ theorem handlerValidate_code (s : State) (frm to : Addr) :
   · simp only [handlerValidate, t2, b2, Bool.false_eq_true, ↓reduceIte, beq_self_eq_true]
     exact staking_validate_program_as_modelled s frm to
   · simp only [handlerValidate, t3, b3, Bool.false_eq_true, ↓reduceIte, beq_self_eq_true]
-    rfl
+    have n1 : ("GovMigrate" == "DistrStakingMigrate") = false := by decide
+    simp only [n1, Bool.false_eq_true, ↓reduceIte, gov_program_as_modelled]
 
 
 /-- the statement lists of `DistrStakingMigrate.Execute` as read from the source (`Gen.C14.executeProgram`), parsed per
